@@ -16,7 +16,7 @@ from ..veq import norm
 from .. import ksy_interp as K
 
 LEVEL = "exploration"
-RULE = ("exportable recipes (integers through names/FormatField/BytesInteger, floats, bytes, the four string macros, flags, enums, FlagsEnum, structs, "
+RULE = ("exportable recipes (integers through names/FormatField/BytesInteger, floats, bytes, the four string macros, flags, enums (keyword, enum-class and mixed label sources), FlagsEnum, structs, "
         "sequences, arrays with constant and context counts, ranges, RepeatUntil, Prefixed/PrefixedArray/PascalString, Padded/Padding/FixedSized, "
         "NullTerminated/NullStripped, conditionals, bit structs, pointers, constants; depth<=3) x canonical encodings of generated values. "
         "non-trivial = construct with a nested type or a dependent size/count/condition; distinct by (recipe shape)")
